@@ -472,6 +472,14 @@ func (e *Engine) runPass(vc *VC) {
 						continue
 					}
 					cls := vc.evalBool(ce, vc.topEnv(vc.entry))
+					o.KnownID = kf.ID
+					if kf.WitnessSpec != "" {
+						if we, err := parseSpec(kf.WitnessSpec); err == nil {
+							o.Witness = vc.evalBool(we, vc.topEnv(vc.entry))
+						} else {
+							vc.errorf("known finding %s: witness_spec: %v", kf.ID, err)
+						}
+					}
 					vc.oblige("post", fmt.Sprintf("ret%d.post.%s.outside[%s]", k+1, tag, kf.ID), and(r.guard, not(cls)), vc.evalGoal(cl.Expr, penv))
 				}
 			}
